@@ -265,10 +265,10 @@ let judge_case (dom : string) (mode : string) (n : int) (o : obs) =
             (fun () -> equiv_sys (nat (max d (nn + 1))) (sys_of_cons cs) (ms_space (nat nn) ap))
         end else bump ("space-universe-for-empty:" ^ tag) in
   space_ms "a_MS" true f_ms; space_ms "ac_MS" false f_ms;
-  let space_pr tag public feas =
+  let space_pr tag public feas (model : unit -> sys) =
     match get_space o tag with
     | None -> if not (Hashtbl.mem o ("exn:" ^ tag)) then fail ("space-" ^ tag) "missing"
-    | Some (d, e, gs, _) ->
+    | Some (d, e, gs, cs) ->
         if d <> n + 1 then bump ("space-dim-differs:" ^ tag);
         bump (Printf.sprintf "space:%s:%s" tag (if e then "empty" else "nonempty"));
         List.iter (fun g ->
@@ -280,13 +280,17 @@ let judge_case (dom : string) (mode : string) (n : int) (o : obs) =
           | _ -> check ("space-line-" ^ tag) (fun () -> what) (fun () -> check_weak (nat n) rel g.gco false);
                  check ("space-line-" ^ tag) (fun () -> what) (fun () -> check_weak (nat n) rel (neg_l g.gco) false)) gs;
         let skip = public && (if mode = "one" then pset_empty else before_empty) in
-        if not skip then
+        if not skip then begin
           (match feas with
            | Some f -> expect ("space-empty-" ^ tag) (fun () -> Printf.sprintf "space empty = %b but a ranking function exists = %b" e f) (e = not f)
-           | None -> undecided ("space-empty-" ^ tag))
-        else bump ("space-universe-for-empty:" ^ tag) in
-  space_pr "a_PR" true (if mode = "one" then f_pro else f_pr);
-  space_pr "ac_PRO" false f_pro; space_pr "ac_PR" false f_pr;
+           | None -> undecided ("space-empty-" ^ tag));
+          (* the space is exactly the image of the projection of the encoding (mu_0 free) *)
+          check ("space-exact-" ^ tag) (fun () -> Printf.sprintf "library %s  differs from the projection of the PR system of before = %s after = %s" (show_cons cs) (show_cons apb) (show_cons apa))
+            (fun () -> equiv_sys (nat (max d (nn + 1))) (sys_of_cons cs) (model ()))
+        end else bump ("space-universe-for-empty:" ^ tag) in
+  let m_pro () = pro_space (nat nn) ap and m_pr () = pr_space (nat db) apb apa in
+  space_pr "a_PR" true (if mode = "one" then f_pro else f_pr) (if mode = "one" then m_pro else m_pr);
+  space_pr "ac_PRO" false f_pro m_pro; space_pr "ac_PR" false f_pr m_pr;
   (* quasi ranking functions: decreasing / bounded separately *)
   let space_q tag which =
     match get_space o tag with
